@@ -121,6 +121,8 @@ def u1(ctx):
     # nobody switches the check off
     offs = []
     for f in ctx.P.all_funcs():
+        if ctx.absorbed(f):
+            continue
         for n in walk_local(f.node):
             if isinstance(n, ast.Call):
                 for k in n.keywords:
